@@ -138,8 +138,7 @@ def judge(res, g, recs, in_variant, bgzip, scratch, tagname="x", record_history=
         if set(tags) != exp or len(tags) != 3:
             wrong = sorted(set(tags) ^ exp)
             kind = sorted({t[:2] for t in wrong})
-            c2 = dict(case)
-            c2["records"] = [r.line()]
+            c2 = dict(case)  # the whole file: a record's tags may depend on the other records (state shared inside one sort run)
             res.fail(f"C09/tags:{'+'.join(kind)}", f"{r.path} [{r.ps},{r.pe}) of {r.plen}: appended {tags}, expected {sorted(exp)}", c2)
     if got != want:
         missing = [k.split("\t")[0] for k in want if got.get(k, 0) < want[k]]
